@@ -1,10 +1,10 @@
 #!/venv/bin/python
-"""Coverage-guided byte-level fuzz target (atheris / libFuzzer) for C08 with the C12 execution monitor switched on.
+"""Coverage-guided byte-level fuzz target (atheris / libFuzzer) for C08 and, in a second mode, for the execution monitor of C12.
 
 The oracle lives inside the target:
   * ast.parse(S) ok and compile(S) ok  => minify(S, O) returns and its result compiles;
   * ast.parse(S) raises class E          => minify(S, O) raises class E;
-  * nothing the minifier evaluates is anything but a closed literal expression (vf.oracle.monitor).
+  * VERIF_FUZZ_MODE=C12: nothing the minifier evaluates is anything but a closed literal expression (vf.oracle.monitor) - and only that.
 The first two bytes select the option set and str/bytes input, the rest is the source. A failing input is written to
 <out>/crash-* by libFuzzer and, as a replay case, to <out>/violation-*.json; the exit status is non-zero.
 
@@ -24,7 +24,7 @@ with atheris.instrument_imports(include=['python_minifier']):
     import python_minifier  # noqa: F401
 
 from vf import api  # noqa: E402
-from vf.checks import c08  # noqa: E402
+from vf.checks import c08, c12  # noqa: E402
 from vf.oracle import monitor  # noqa: E402
 from vf.runner import Findings, jsonable  # noqa: E402
 
@@ -32,6 +32,7 @@ OPTION_SETS = [api.DEFAULTS, api.ALL_OFF, api.ALL_ON, dict(api.DEFAULTS, rename_
                dict(api.ALL_ON, rename_globals=False), dict(api.DEFAULTS, remove_literal_statements=True, remove_asserts=True, remove_debug=True),
                dict(api.ALL_OFF, constant_folding=True, combine_imports=True)]
 OUT = [None]
+MODE = os.environ.get('VERIF_FUZZ_MODE', 'C08')
 FINDINGS = Findings()
 STATS = {'execs': 0, 'parsed': 0, 'compiled': 0, 'known': 0}
 
@@ -50,24 +51,28 @@ def target(data):
         except UnicodeDecodeError:
             return
     case = {'source': src, 'opts': opts}
-    monitor.MONITOR.install()
-    monitor.MONITOR.begin()
-    try:
+    if MODE == 'C12':
+        # only the execution monitor decides; whatever minify() returns or raises is C08's business
+        if c08.parse_error(src) is None:
+            STATS['parsed'] += 1
+        try:
+            r = c12.oracle(case)
+        except BaseException as e:
+            if type(e).__name__ in ('MinifyTimeout', 'RecursionError', 'MemoryError'):
+                return
+            raise
+    else:
         r = c08.oracle(case)
-    finally:
-        events, _ = monitor.MONITOR.end()
-    if c08.parse_error(src) is None:
-        STATS['parsed'] += 1
-    if r is None and events:
-        r = (('C12-monitor', events[0]['kind']), events[:2])
+        if c08.parse_error(src) is None:
+            STATS['parsed'] += 1
     if r is None:
         return
-    if 'MinifyTimeout' in repr(r[0]) or FINDINGS.match('C08', case, r[0], r[1]) is not None:
+    if 'MinifyTimeout' in repr(r[0]) or FINDINGS.match(MODE, case, r[0], r[1]) is not None:
         STATS['known'] += 1
         return
     path = os.path.join(OUT[0], 'violation-%s.json' % abs(hash(repr(r[0]))))
     with open(path, 'w') as f:
-        json.dump({'property': 'C08', 'signature': jsonable(r[0]), 'case': jsonable(case), 'observed': jsonable(r[1])}, f, indent=1)
+        json.dump({'property': MODE, 'signature': jsonable(r[0]), 'case': jsonable(case), 'observed': jsonable(r[1])}, f, indent=1)
     raise RuntimeError('VIOLATION %r' % (r[0],))
 
 
